@@ -23,10 +23,11 @@ pub fn numbers(thorough: bool) -> Vec<(Value, String)> {
         (json!(0.1), "0.1".into()),
         (json!(1e-20), "1e-20".into()),
         (json!(2e-20), "2e-20".into()),
+        (json!(-0.0), "-0.0".into()),
     ];
     if thorough {
         v.extend([
-            (json!(-0.0), "-0".into()),
+            (json!(0.0), "0.0".into()),
             (json!(-1.5), "-1.5".into()),
             (json!(1.0000000000000002), "1.0000000000000002".into()),
             (json!(9007199254740990i64), "9007199254740990".into()),
